@@ -38,13 +38,19 @@ def gen_cases(tier, seed):
                            "amount_mode": rng.choice(["plain", "hostile", "hostile", "huge", "with_zero", "with_zero"]), "fraction": rng.choice([1.0, 1.0, 0.5]),
                            "fee": rng.choice([1000, 0, 999]), "version": rng.choice([1, 2]), "locktime": rng.choice([0, 5]),
                            "flag": rng.choice(FLAGS), "recipient": rng.choice(["p2pkh", "segwit0"]), "change": "default",
-                           "m_n": rng.choice([[1, 1], [1, 2], [2, 2], [2, 3]])}
+                           "m_n": rng.choice([[1, 1], [1, 2], [2, 2], [2, 3]]), "txid_mode": ["distinct", "shared"][i % 2]}
+
+
+    # ... with the nonce chosen so that r / s are short (their DER integers change length): still valid under consensus rules
+    for i in range(6 if q else 60):
+        yield "e2e_ground", {"kind": ["p2wpkh", "p2sh-p2wpkh"][i % 2], "salt": rng.getrandbits(48), "net": ["mainnet", "testnet", "regtest"][i % 3],
+                             "target": ["short_r", "short_s_high_bit"][i % 2]}
 
 
 def required(tier):
     return {"msg.decided": 5000, "msg.class.single_idx_ge_nout": 100, "msg.class.single_idx_lt_nout": 100,
             "msg.class.acp": 1000, "msg.class.none": 500, "msg.class.nonempty_scriptsig": 2000, "vector.ok": 1,
-            "history.steps": 500, "history.same_prevouts_changed_rest": 300, "e2e.signed_decided": 60, "e2e.inputs_valid": 60,
+            "history.steps": 500, "history.same_prevouts_changed_rest": 300, "e2e.signed_decided": 60, "e2e.inputs_valid": 60, "e2e.short_r": 2, "e2e.shared_txid": 20,
             "contract:witness_message.bip143": 60}
 
 
@@ -81,6 +87,10 @@ def run_case(kind, params, ctx):
     if kind == "e2e_send":
         from . import c16
         c16.run_case("send", params, _E2E(ctx))
+        return
+    if kind == "e2e_ground":
+        from . import c16
+        c16.run_case("send_ground", params, _E2E(ctx))
         return
     if kind == "history":
         _history(ctx, params, wm)
@@ -135,12 +145,13 @@ class _E2E:
         return getattr(self.ctx, name)
 
     def count(self, name, n=1):
-        m = {"send.signed_decided": "e2e.signed_decided", "kind.segwit.valid": "e2e.inputs_valid"}
+        m = {"send.signed_decided": "e2e.signed_decided", "kind.segwit.valid": "e2e.inputs_valid", "ground.signed_with_short_r": "e2e.short_r",
+             "class.shared_txid": "e2e.shared_txid"}
         if name in m:
             self.ctx.count(m[name], n)
 
     def violation(self, key, detail, sub=None):
-        if key.startswith("sig-invalid/segwit"):
+        if key.startswith("sig-invalid/segwit") or key.startswith("sig-malformed/segwit"):
             self.ctx.violation("e2e/" + key, "send_tx signature over its BIP143 message is invalid for the spending transaction: " + detail)
         else:
             self.ctx.count("e2e.observation_of_other_property")
